@@ -52,22 +52,29 @@ Qed.
 
 (* promptly: a call that is waiting raises at its very next poll, whatever else
    is scripted to arrive *)
-Theorem waiting_call_raises_at_next_poll sc s c v u uc e rest :
-  s_cerrs s = e :: rest ->
+Theorem waiting_call_raises_at_next_poll sc s c v u uc held e rest :
+  s_cerrs s = e :: rest -> e_kind e = EConn ->
   (forall l, resp_get (c_resp (cur s c v)) u = Some l -> l = []) ->
-  exists s' v', wait_rpc sc s c v u uc = (s', v', Raise e, sc) /\ s_conn s' = CLOSED /\ s_out s' = s_out s.
+  exists s' v', wait_rpc sc s c v u uc held = (s', v', Raise e, sc) /\ s_conn s' = CLOSED /\ s_out s' = s_out s.
 Proof.
-  intros H Hresp.
+  intros H Hk Hresp.
   assert (Hc : exists s' v', adapter_check s c (cur s c v) uc = (s', v', Raise e) /\
                              s_conn s' = CLOSED /\ s_out s' = s_out s).
   { unfold adapter_check. destruct uc.
     - destruct (conn_check_reports s e rest H) as (s' & E & A & _ & _ & _ & O). rewrite E. eauto.
     - destruct (chan_check_reports s c (cur s c v) e rest H) as (s' & v' & E & _ & A & _ & O). eauto. }
   destruct Hc as (s' & v' & E & A & O).
+  (* returned messages held back meanwhile go back to the queue; the failure is raised *)
+  assert (Hq : exists s3 v3, requeue s' c v' held = (s3, v3) /\ s_conn s3 = CLOSED /\ s_out s3 = s_out s).
+  { destruct held as [|h held]; cbn [requeue]; [eauto|].
+    eexists _, _. split; [reflexivity|].
+    match goal with |- context [upd s' c ?x] => destruct (upd_conn s' c x) as (A' & _ & O' & _) end.
+    split; congruence. }
+  destruct Hq as (s3 & v3 & Eq & A3 & O3).
   destruct sc as [|t sc]; cbn [wait_rpc];
     (destruct (resp_get (c_resp (cur s c v)) u) as [[|f l]|] eqn:Er;
      [ | specialize (Hresp _ eq_refl); discriminate | ]);
-    rewrite E; eauto.
+    rewrite E, Hk; cbn [ekind_eqb]; rewrite Eq; eauto.
 Qed.
 
 (* every later call raises it before writing anything *)
